@@ -997,7 +997,7 @@ func selfCheck(r *mc.Run, docs []mDoc, signed []signedDoc, K1, K2 *key) {
 
 func Replay(scenario string, raw json.RawMessage) []*mc.Violation {
 	var in In
-	if err := json.Unmarshal(raw, &in); err != nil {
+	if err := mc.UnmarshalInput(raw, &in); err != nil {
 		return nil
 	}
 	if res := check(scenario, in); res.v != nil {
